@@ -1,6 +1,101 @@
-(* Properties_C18.v — C18 (placeholder while the pipeline is brought up). *)
-Require Import SquidV.Bytes SquidV.RwlockModel SquidV.SmpModel SquidV.SmpProofs.
+(* Properties_C18.v — C18: collapsed forwarding: one upstream fetch, identical copies.
+   Statements only; proofs live in SmpProofs.v (lock, anchor population) and SmpProtoProofs.v (protocol).
+
+   Vocabulary (SmpModel.v):
+     step c g e / run c g evs   the collapsing protocol for ONE cache key as a step function over events:
+                                EFind ci w (request ci reaches worker w: Store::Controller::find, collapse-or-miss),
+                                EStart ci (processMiss: new StoreEntry, allowCollapsing/setPublicKey, origin request),
+                                EHdr v n / EData v n / EEnd v / ECut v (origin side of fetch v: header + n body bytes,
+                                more bytes, proper end, early close), ESync w (worker w drains its
+                                CollapsedForwarding queue: syncCollapsed), EFin ci (client transaction over),
+                                EPurge w, EReload ci w.  Events that do not apply are no-ops.
+     nf g                       number of origin requests made so far (= versions issued)
+     run_scen c s               the canonical schedule of a burst (leader, joiners A before the origin answered,
+                                header + first bytes, joiners B, rest + end or early close, late joiners one by one),
+                                which checks/c18.py drives through the real squid
+     outcome_of c cl            OFull v: client holds a complete copy of origin response v; OTrunc v: its message
+                                ended visibly incomplete; OPending / ONone
+     pstep1 / prun              any number of processes calling the StoreMap anchor methods in any order *)
+Require Import SquidV.Bytes SquidV.RwlockModel SquidV.SmpModel SquidV.SmpProofs SquidV.SmpProtoProofs.
 Local Open Scope N_scope.
-Theorem C18_lock_unlock_shared : forall l l', lockShared l = (l', true) -> unlockShared l' = l.
-Proof. exact lock_unlock_shared. Qed.
-Print Assumptions C18_lock_unlock_shared.
+
+(* --- origin-request accounting, for ALL event sequences and all object parameters: an event makes an origin request
+       iff it is the processMiss (EStart) of a client that missed or must re-forward; no lookup, collapse decision,
+       origin data, abort, queue drain, purge or transaction end ever does --- *)
+Theorem C18_only_processMiss_contacts_origin : forall c g e,
+  nf (step c g e) = nf g + (if starts_fetch g e then 1 else 0).
+Proof. exact nf_step. Qed.
+Print Assumptions C18_only_processMiss_contacts_origin.
+
+Theorem C18_origin_requests_equal_processMiss_count : forall c evs g,
+  nf (run c g evs) = nf g + fetches_started c g evs.
+Proof. exact nf_run. Qed.
+Print Assumptions C18_origin_requests_equal_processMiss_count.
+
+(* in particular a request that reaches a worker (whatever it finds: local entry, Transients entry with or without a
+   writer, memory-cache entry, nothing) does not contact the origin in that step *)
+Theorem C18_arrival_step_makes_no_origin_request : forall c g ci w, nf (step c g (EFind ci w)) = nf g.
+Proof. intros. rewrite nf_step. cbn [starts_fetch]. apply N.add_0_r. Qed.
+Print Assumptions C18_arrival_step_makes_no_origin_request.
+
+(* --- at most one writer of the Transients entry (exclusive lock), for any number of processes and any order of
+       StoreMap method calls on the anchor; readers coexist with the writer only after its startAppending --- *)
+Theorem C18_at_most_one_transient_writer : forall n sched p q, let s := fst (prun (pinit n) sched) in
+  p <> q -> isW (hget (ph s) p) = true -> isW (hget (ph s) q) = true -> False.
+Proof. exact pop_one_writer. Qed.
+Print Assumptions C18_at_most_one_transient_writer.
+
+Theorem C18_readers_only_beside_appending_writer : forall n sched p q, let s := fst (prun (pinit n) sched) in
+  hget (ph s) p = HRead -> isW (hget (ph s) q) = true -> hget (ph s) q = HAppend.
+Proof. exact pop_reader_only_with_appending_writer. Qed.
+Print Assumptions C18_readers_only_beside_appending_writer.
+
+(* --- all arrival orders of a bounded burst (exhaustive; 3 workers, leader at any worker, up to 3 joiners before the
+       origin answered and up to 2 after the header + 9000 of 40000 body bytes, each at any worker; length known
+       (Content-Length) or not (chunked)), complete cacheable response: exactly ONE origin request, while the fetch is
+       in progress and in total (two late joiners included), and every client holds the complete first response --- *)
+Theorem C18_burst_one_fetch_identical_copies_bounded : forall known lw A B,
+  (lw = 1 \/ lw = 2 \/ lw = 3) ->
+  (length A <= 3)%nat -> Forall (fun w => w = 1 \/ w = 2 \/ w = 3) A ->
+  (length B <= 2)%nat -> Forall (fun w => w = 1 \/ w = 2 \/ w = 3) B ->
+  check_complete true known lw A B = true.
+Proof. exact burst_complete_one_fetch. Qed.
+Print Assumptions C18_burst_one_fetch_identical_copies_bounded.
+
+(* ... the same bursts when the origin closes after 20000 of 40000 bytes: one origin request while the fetch is in
+   progress, and NO client is shown the first response as complete (each ends visibly truncated or, having
+   re-forwarded, with the complete response of its own later fetch) *)
+Theorem C18_burst_cut_never_presented_complete_bounded : forall known lw A B,
+  (lw = 1 \/ lw = 2 \/ lw = 3) ->
+  (length A <= 3)%nat -> Forall (fun w => w = 1 \/ w = 2 \/ w = 3) A ->
+  (length B <= 2)%nat -> Forall (fun w => w = 1 \/ w = 2 \/ w = 3) B ->
+  check_cut true known lw A B = true.
+Proof. exact burst_cut_never_complete. Qed.
+Print Assumptions C18_burst_cut_never_presented_complete_bounded.
+
+(* --- outside the premise "arrives while a fetch is in progress": two requests at two workers that both look up
+       before either has registered its Transients entry both go to the origin; one after the other they share --- *)
+Theorem C18_simultaneous_misses_fetch_twice :
+  nf (run race_cfg (add_clients g0 2) [EFind 0 1; EFind 1 2; EStart 0; EStart 1]) = 2 /\
+  nf (run race_cfg (add_clients g0 2) [EFind 0 1; EStart 0; EFind 1 2; EStart 1]) = 1.
+Proof. exact simultaneous_misses. Qed.
+Print Assumptions C18_simultaneous_misses_fetch_twice.
+
+(* --- the method-level lock used above is the atomic-operation ReadWriteLock model of property C54 run alone, for
+       all 8 methods the anchors use, every writer/appending flag and up to 4 concurrent readers --- *)
+Theorem C18_method_level_lock_is_C54_model_bounded : forall r w a, r <= 4 -> bridge_ok (mkL r w a) = true.
+Proof. exact lock_bridge_bounded. Qed.
+Print Assumptions C18_method_level_lock_is_C54_model_bounded.
+
+(* --- hypotheses are satisfiable / the vocabulary is not vacuous --- *)
+Example C18_ex_start_counts : starts_fetch (run race_cfg (add_clients g0 1) [EFind 0 1]) (EStart 0) = true.
+Proof. vm_compute. reflexivity. Qed.
+Example C18_ex_collapsed_joiner_shares :
+  let c := cfg_of true true Pos 1000 in
+  let g := run c (add_clients g0 2) [EFind 0 1; EStart 0; EFind 1 2; EHdr 1 400; ESync 2; EData 1 600; EEnd 1; ESync 2] in
+  nf g = 1 /\ map (outcome_of c) (cs g) = [OFull 1; OFull 1].
+Proof. vm_compute. split; reflexivity. Qed.
+Example C18_ex_writer_and_reader :
+  let s := fst (prun (pinit 2) [(0, MOpenW); (0, MStartApp); (1, MOpenR)]) in
+  hget (ph s) 0 = HAppend /\ hget (ph s) 1 = HRead.
+Proof. vm_compute. split; reflexivity. Qed.
